@@ -13,7 +13,7 @@ DECODE = dict(id='U-dec.decode', file=F, fn='decode', mode='assumed', properties
 
 
 def seg_unit(uid, fn, var, fold, skip_rw, bad_hint):
-    return dict(id=uid, file=F, fn=fn, properties=['C07', 'C02', 'C05', 'C06'],
+    return dict(id=uid, file=F, fn=fn, properties=['C07', 'C02', 'C05', 'C06', 'C01', 'C09'],
         attrs='#[verifier::loop_isolation(false)]',
         contract='''    ensures match r {
         Ok(out) => %(fold)s(split_spec(trim_spec(%(var)s@, '/'), '/')) == Some(out@),
